@@ -36,7 +36,7 @@ fn grammars(tier: Tier) -> Vec<Grammar> {
 	};
 	let readers = Grammar {
 		name: "readers-across-cleanup",
-		max_len: if tier == Tier::Quick { 7 } else { 8 },
+		max_len: if tier == Tier::Quick { 6 } else { 8 },
 		max_w: 3,
 		max_p: 3,
 		max_r: 3,
@@ -199,7 +199,7 @@ fn classify(f: &WorldFailure, _ops: &[Op], _opt: &OptSet) -> String {
 pub fn check(tier: Tier) -> i32 {
 	surrealkv::verif::set_forced_height(1);
 	let mut report = Report::new("C11", tier, "model_checking");
-	let budget = Budget::new(if tier == Tier::Quick { 50.0 } else { 1000.0 });
+	let budget = Budget::new(if tier == Tier::Quick { 40.0 } else { 1000.0 });
 	// no block cache: a cached value would hide a pointer whose file is gone
 	let mut opts = vec![OptSet::base("L2-vlog8-64-cache0").with_vlog(8, 64).cache(0), OptSet::base("L2-versioned-vlog64-cache0").versioned(0, false).with_vlog(0, 64).cache(0)];
 	if tier == Tier::Thorough {
@@ -225,6 +225,7 @@ pub fn check(tier: Tier) -> i32 {
 		}
 	}
 	// --- history part: every version of every key through the value log (time-travel reads) ---
+	let hist_budget = Budget::new(if tier == Tier::Quick { 12.0 } else { 300.0 });
 	let mut hist_evals = 0u64;
 	if all_complete {
 		let kinds = [Kind::Set, Kind::SoftDelete, Kind::Delete, Kind::Replace];
@@ -236,7 +237,7 @@ pub fn check(tier: Tier) -> i32 {
 			let done = std::sync::atomic::AtomicU64::new(0);
 			use rayon::prelude::*;
 			lists.par_iter().enumerate().for_each(|(i, l)| {
-				if budget.exhausted() {
+				if hist_budget.exhausted() {
 					return;
 				}
 				for name in HIST_BACKENDS {
